@@ -658,6 +658,7 @@ func vfC06Run(t *testing.T, cs vfC06Case, out *vfC06Out, isKnown func(string) bo
 		}
 		if overlapped {
 			out.nontrivial = true
+			out.labels = append(out.labels, "world_nontrivial")
 		}
 		return ""
 	})
